@@ -297,6 +297,91 @@ BV lowmc_encrypt(const LowMC& lm, const BV& key, const BV& pt, std::vector<BV>* 
   }
   return s;
 }
+namespace {
+struct FastMat {
+  std::vector<BV> tab; // tab[j * 16 + v] = M * (vector whose nibble j is v); nibble tables stay cache resident
+  int nnib = 0;
+  void build(const std::vector<BV>& M, int n) {
+    nnib = (n + 3) / 4;
+    std::vector<BV> col(4 * nnib);
+    for (int i = 0; i < n; i++)
+      for (int c = 0; c < n; c++)
+        if (M[i].get(c))
+          col[c].set(i, true);
+    tab.assign((size_t)nnib * 16, BV());
+    for (int j = 0; j < nnib; j++)
+      for (int v = 1; v < 16; v++) {
+        int low = v & -v, bit = __builtin_ctz(v);
+        tab[(size_t)j * 16 + v] = tab[(size_t)j * 16 + (v ^ low)] ^ col[4 * j + (3 - bit)];
+      }
+  }
+  BV mul(const BV& x) const {
+    BV o;
+    for (int j = 0; j < nnib; j++) {
+      unsigned v = (unsigned)((x.w[j >> 4] >> (60 - 4 * (j & 15))) & 0xf);
+      const BV& t = tab[(size_t)j * 16 + v];
+      o.w[0] ^= t.w[0];
+      o.w[1] ^= t.w[1];
+      o.w[2] ^= t.w[2];
+      o.w[3] ^= t.w[3];
+    }
+    return o;
+  }
+};
+struct FastLowMC {
+  std::vector<FastMat> L, K;
+};
+std::map<std::pair<int, int>, FastLowMC>& fcache() {
+  static std::map<std::pair<int, int>, FastLowMC> c;
+  return c;
+}
+std::mutex fcache_mu;
+} // namespace
+BV lowmc_encrypt_fast(int n, int r, const BV& key, const BV& pt) {
+  const LowMC& lm = lowmc_instance(n, r);
+  FastLowMC* f;
+  {
+    std::lock_guard<std::mutex> lk(fcache_mu);
+    auto k = std::make_pair(n, r);
+    auto it = fcache().find(k);
+    if (it == fcache().end()) {
+      FastLowMC nf;
+      nf.L.resize(r);
+      nf.K.resize(r + 1);
+      for (int i = 0; i < r; i++)
+        nf.L[i].build(lm.L[i], n);
+      for (int i = 0; i <= r; i++)
+        nf.K[i].build(lm.K[i], n);
+      it = fcache().emplace(k, std::move(nf)).first;
+      // pin the tables to the plain evaluation
+      uint64_t sd = 0x1234567 + n * 1000 + r;
+      for (int t = 0; t < 64; t++) {
+        BV a, b;
+        for (int i = 0; i < n; i++) {
+          sd = sd * 6364136223846793005ULL + 1442695040888963407ULL;
+          a.set(i, (sd >> 62) & 1);
+          b.set(i, (sd >> 61) & 1);
+        }
+        BV s1 = lowmc_encrypt(lm, a, b);
+        const FastLowMC& ff = it->second;
+        BV s2 = b ^ ff.K[0].mul(a);
+        for (int i = 0; i < r; i++) {
+          s2 = sbox_layer(s2, lm.m);
+          s2 = ff.L[i].mul(s2) ^ lm.C[i] ^ ff.K[i + 1].mul(a);
+        }
+        if (!(s1 == s2))
+          throw std::runtime_error("model: table-driven LowMC disagrees with the plain evaluation");
+      }
+    }
+    f = &it->second;
+  }
+  BV s = pt ^ f->K[0].mul(key);
+  for (int i = 0; i < r; i++) {
+    s = sbox_layer(s, lm.m);
+    s = f->L[i].mul(s) ^ lm.C[i] ^ f->K[i + 1].mul(key);
+  }
+  return s;
+}
 bytes lowmc_encrypt_bytes(const Params& p, const bytes& key, const bytes& pt) {
   const LowMC& lm = lm_for(p);
   BV k = bv_from_bytes(key.data(), p.n), x = bv_from_bytes(pt.data(), p.n);
